@@ -115,6 +115,10 @@ WORLD_RULE = ("whole-system runs: rtr_mgr with 1-2 sockets (real FSM threads, re
               "run hashes over all events.")
 
 
+# metamorphic runs end at a fixed simulated time and are not truncated by the step budget
+_MM = {"end.mode": "time", "end.max_s": 2500, "soft_steps": 1000000000, "sim.max_steps": 40000000}
+
+
 def _world(focus, name=None, **kw):
     d = {"name": name or ("world-" + focus), "kind": "random", "scn": "world", "variant": "asan", "opts": {"focus": focus},
          "runs_quick": 1500, "time_quick": 40, "runs_thorough": 150000, "time_thorough": 700}
@@ -134,4 +138,36 @@ PROPS.update({
             "expected_probes": ["probe_report_framing", "probe_report_version", "probe_report_dup", "probe_report_unk", "probe_report_flags",
                                 "probe_report_sess-eod", "probe_report_unexpected", "probe_report_unktype"],
             "assumptions": ["offending PDU = first PDU of the stream a correct client must refuse (family order for payload errors)"]},
+    "C07": {"level": "exploration", "rule": WORLD_RULE + " C07 plans add: the cache disappears (every connect fails) for T seconds with T drawn around the expire interval "
+            "in force (0.5x, -3..+4 s, 2..10x), optionally right after an interrupted reload; operator stop/start at random times.",
+            "suites": [_world("C07")], "min_counters": {"stop_audits": 500},
+            "expected_probes": ["probe_expired_at_open", "probe_expiry_band_at_open", "expiry_audits", "fault_unreachable"],
+            "assumptions": ["+-2 s indifference band around the expire interval (second-granular, rounded-up library clock)"]},
+    "C08": {"level": "exploration", "rule": WORLD_RULE + " C08: after the scripted fault phase the cache answers correctly with a fixed data set; the socket must reach "
+            "ESTABLISHED with exactly the cache's records within refresh + expire + 4*retry + 360 s of simulated time; deadlock, busy loop and step-limit "
+            "detectors cover 'never loops without letting time advance'.",
+            "suites": [_world("C08")], "min_counters": {"sync_audits": 500, "probe_converged_runs": 100},
+            "assumptions": ["during the fault phase every response the client accepts is honest (DESIGN §8 C08)"]},
+    "C13": {"level": "exploration", "rule": WORLD_RULE + " C13 plans add: caches that only speak version 0, answers in version 0 to version-1 queries, Unsupported-Version "
+            "reports carrying version 0/1/2/255, hang-ups before a session exists, PDUs with arbitrary version bytes, End of Data in the other version's format.",
+            "suites": [_world("C13")], "min_counters": {"queries_seen": 500},
+            "expected_probes": ["probe_downgrade_first_pdu", "probe_downgrade_code4", "probe_downgrade_hangup", "probe_report_version"],
+            "assumptions": []},
+    "C17": {"level": "exploration", "rule": WORLD_RULE + " C17 plans add: End of Data intervals from the boundary set {0,1,2,599,600,601,7200,7201,86400,86401,172800,172801,2^32-1} and "
+            "random 32-bit values, all four interval modes, Serial Notify at random instants.",
+            "suites": [_world("C17")], "min_counters": {"interval_audits": 500},
+            "expected_probes": ["probe_poll_after_notify", "probe_poll_after_refresh"],
+            "assumptions": ["+2 s slack on the refresh deadline (rounded-up second-granular clock)"]},
+    "C04": {"level": "exploration", "rule": WORLD_RULE + " C04 plans are hostile: random byte edits in any PDU field, Error Reports with lying inner lengths, raw random streams, cuts at "
+            "arbitrary offsets, 1-byte / random / maximal read chunking. Oracles: sanitizers + assertions (no crash), every run terminates (deadlock, "
+            "busy-loop, step and simulated-time detectors), malformed-length / unknown-type PDUs never change the tables nor end in success, and the same "
+            "plan under three read chunkings yields identical table contents, state sequence and sent bytes.",
+            "suites": [_world("C04"),
+                       {"name": "world-C04-chunking", "kind": "metamorphic", "scn": "world", "variant": "asan",
+                        "opts": {"focus": "C04", "single": 1, "no_call_faults": 1},
+                        "variants": [dict(_MM, **{"chunk.mode": "all"}), dict(_MM, **{"chunk.mode": "one"}), dict(_MM, **{"chunk.mode": "rand"})],
+                        "equal_fields": ["tables", "states", "sent"], "cls": "segmentation-dependence",
+                        "runs_quick": 250, "time_quick": 30, "runs_thorough": 20000, "time_thorough": 500}],
+            "min_counters": {"sync_audits": 500, "metamorphic_groups": 50},
+            "assumptions": ["UBSan restricted to memory-safety checks (bounds, null): the property speaks of invalid memory accesses and assertion failures"]},
 })
